@@ -34,6 +34,7 @@ def world (p : Pipeline (ExceptT String m) A V M) (isSeries : V → Bool) : Worl
   int := .int
   str := .str
   list := .list
+  newList vs := pure (.list vs)
   tuple := .list
   global n := pure (.builtin n)
   truthy
@@ -177,6 +178,7 @@ def cworld (mu : A → Option V → ExceptT String m V) : World (StateT (List V)
   int := .int
   str := .str
   list := .list
+  newList vs := pure (.list vs)
   tuple := .list
   global n := pure (.builtin n)
   truthy
